@@ -316,17 +316,19 @@ PROPS = {
         "det_trace": False,
         "quick": {"seconds": 30, "chunk": 1500, "runs": 60000},
         "thorough": {"seconds": 900, "chunk": 5000},
-        "rule": ("one run = real forward.Handler with 1-3 main and 0-2 fallback UpstreamPlain upstreams (network any, 1s "
+        "rule": ("one run = real forward.Handler with 1-3 main and 0-2 fallback UpstreamPlain upstreams (each taking both transports, only UDP or only TCP; 1s "
                  "timeout, backoff 0/1s/10s/1min) dialling scripted servers on the simulated network; 3-30 operations, each "
                  "preceded by tape-chosen state changes of the upstreams (up, silent, refusing, closing after read, wrong ID, "
                  "wrong name, wrong type, two questions, truncated-UDP-then-TCP, garbage, bare header, header counts without "
-                 "records, reply cut inside the name or a record, error reply without question, SERVFAIL, NXDOMAIN, duplicated reply) and a clock advance from {0, 0.1s, backoff/2, backoff-1ms, "
+                 "records, reply cut inside the name or a record, error reply without question, SERVFAIL, NXDOMAIN, duplicated reply, mismatching datagram followed by a closing stream, stray reply that claims truncation) and a clock advance from {0, 0.1s, backoff/2, backoff-1ms, "
                  "backoff, backoff+1ms, 31s}; an operation is a query with a unique name (now and then too large for a datagram buffer, or too large to forward at all), a burst of 2-4 concurrent queries, or a health-check round; after an upstream has answered four exchanges in a row with one good UDP reply each, the next must not need a retry over TCP; every run "
                  "is non-trivial; distinct = distinct decision-sequence hash"),
         "assumptions": [
             "upstream states change between operations, not during one",
             "which active main (and which fallback) is chosen is left free; the upstream-side receive log is the ground truth for who got the query",
             "a probe exactly at lastFailed+backoff may or may not be sent",
+            "a TCP-only upstream is never in the refusing state (it could not note what it refuses): it closes after reading instead",
+            "the truncated reply of a UDP-only upstream is the answer, unless the upstream's log shows the query also came over TCP (something stale in the socket made the resolver retry there)",
         ],
         "components": {
             "real": ["internal/dnsserver/forward: Handler, healthcheck, UpstreamPlain (UDP, TCP fallback, validation)", "internal/dnsserver/pool (connection pool)"],
